@@ -27,8 +27,20 @@ META = {
 }
 
 
+OPERATOR_FUNCTION_KEYWORD = {"Select": "f", "SelectMany": "func", "Where": "filter"}
+
+
 class CallGen:
     """Builds (user ast, expected ast) pairs for one model."""
+
+    def operator(self, cu, cx, op, lu, lx):
+        """a stream operator on a typed collection - its function given positionally or under the name ObjectStream declares:
+        either way the call keeps exactly what the user wrote"""
+        if self.r.random() < 0.12:
+            self.kw_ops = getattr(self, "kw_ops", 0) + 1
+            k = OPERATOR_FUNCTION_KEYWORD[op]
+            return (ast.Call(func=attr(cu, op), args=[], keywords=[ast.keyword(arg=k, value=lu)]), ast.Call(func=attr(cx, op), args=[], keywords=[ast.keyword(arg=k, value=lx)]))
+        return ast.Call(func=attr(cu, op), args=[lu], keywords=[]), ast.Call(func=attr(cx, op), args=[lx], keywords=[])
 
     def __init__(self, rnd, model):
         self.r, self.m = rnd, model
@@ -154,8 +166,7 @@ class CallGen:
             return self.method_call(fu, fx, elem, r.choice(meths), env, depth)
         # Where(...).Count()
         (bu, bx) = self.scalar(inner, depth + 1)
-        wu = ast.Call(func=attr(cu, "Where"), args=[lam([v], ast.Compare(left=bu, ops=[ast.Gt()], comparators=[C(1)]))], keywords=[])
-        wx = ast.Call(func=attr(cx, "Where"), args=[lam([v], ast.Compare(left=bx, ops=[ast.Gt()], comparators=[C(1)]))], keywords=[])
+        wu, wx = self.operator(cu, cx, "Where", lam([v], ast.Compare(left=bu, ops=[ast.Gt()], comparators=[C(1)])), lam([v], ast.Compare(left=bx, ops=[ast.Gt()], comparators=[C(1)])))
         return ast.Call(func=attr(wu, "Count"), args=[], keywords=[]), ast.Call(func=attr(wx, "Count"), args=[], keywords=[])
 
     def seq(self, env, depth):
@@ -172,9 +183,9 @@ class CallGen:
             if r.random() < 0.3 and self.m.COLLS[elem]:
                 su, sx, _ = self.seq(inner, depth + 1)
                 op = r.choice(["Select", "SelectMany"])
-                return (ast.Call(func=attr(cu, op), args=[lam([v], su)], keywords=[]), ast.Call(func=attr(cx, op), args=[lam([v], sx)], keywords=[]), None)
+                return self.operator(cu, cx, op, lam([v], su), lam([v], sx)) + (None,)
             bu, bx = self.scalar(inner, depth + 1)
-            return (ast.Call(func=attr(cu, "Select"), args=[lam([v], bu)], keywords=[]), ast.Call(func=attr(cx, "Select"), args=[lam([v], bx)], keywords=[]), None)
+            return self.operator(cu, cx, "Select", lam([v], bu), lam([v], bx)) + (None,)
         return cu, cx, elem
 
 
@@ -189,7 +200,8 @@ def run_case(ctx, rnd, model, ds, i):
     two_stage = rnd.random() < 0.2
     if two_stage:
         # dictionary fields of a previous stage: the object arrives as v.ev
-        stream = ds.Select("lambda e0: {'ev': e0, 'n': 1}")
+        # (a key written twice holds its last value, as in python)
+        stream = ds.Select("lambda e0: {'ev': e0, 'n': 1}" if rnd.random() < 0.7 else "lambda e0: {'ev': 1, 'n': 1, 'ev': e0}")
         bu, bx = g.scalar([("q0", "Event")], 1)
         if any(isinstance(x, ast.Lambda) and any(a.arg == v for a in x.args.args) for x in astx.walk_nodes(bu)):
             two_stage = False
@@ -250,6 +262,8 @@ def run_case(ctx, rnd, model, ds, i):
     ctx.case(key, nt)
     ctx.count("outcome:emitted")
     ctx.count("call-sites", len(g.sites))
+    ctx.count("operators-with-keyword-function", getattr(g, "kw_ops", 0))
+    ctx.count(f"receiver-name:{model.receiver}")
     for n, d in g.sites:
         ctx.count(f"sites:params={n}:depth={min(d, 3)}")
     if g.missing:
